@@ -12,6 +12,12 @@ Interleaving model (core Lean only) of
                                                       set_dependency / set_extra_dependency
   * `TaskQueue`                (src/TaskQueue.hpp)    add_task, get_task, try_get_task, size
   * `LockFree::add`            (src/LockFree.hpp)     load + compare-exchange loop
+  * the counter protocol of the hydro worker loop
+    (src/TaskBasedRadiationHydrodynamicsSimulation.cpp, "reset the hydro tasks and add them to the
+    queue" … `while (number_of_tasks.value() > 0)`): `seed` = `add_task; number_of_tasks.pre_increment()`
+    of the initial loop, `setUnf` = `set_number_of_unfinished_parents`, `release` = the code after
+    `unlock_dependency()`: for every child `decrement_number_of_unfinished_parents() == 0` ⇒
+    `add_task(child); number_of_tasks.pre_increment()`, then `number_of_tasks.pre_decrement()`.
 
 Semantics: sequentially consistent shared memory `Mem`; every thread has a program counter and
 locals (`Thread`); `exec` performs ONE transition of one thread: exactly one `AtomicValue`
@@ -52,6 +58,12 @@ structure Cfg where
   cap : Nat
   /-- `Task::_dependency[0..1]` of every task index (`none` = `nullptr`) -/
   deps : Nat → Option Nat × Option Nat
+  /-- `Task::_children` of every task index -/
+  children : Nat → List Nat := fun _ => []
+  /-- queue a released task is put into (queue of the thread that owns its subgrid) -/
+  queueOf : Nat → Nat := fun _ => 0
+  /-- number of task queues -/
+  nq : Nat := 1
 
 /-- `Task::set_dependency(d0)` followed by `Task::set_extra_dependency(d1)` (if `d1` is given):
 a duplicate of the first dependency is ignored -/
@@ -82,6 +94,10 @@ inductive Cmd where
   | preSub (c : Nat) (v : Int)   -- AtomicValue::pre_subtract
   | load (c : Nat)            -- AtomicValue::value
   | lfAdd (c : Nat) (v : Int) -- LockFree::add
+  | setUnf (t : Nat) (v : Int) -- Task::set_number_of_unfinished_parents (reset_hydro_tasks)
+  | seed (q t : Nat)          -- initial loop: queues[q]->add_task(t); number_of_tasks.pre_increment()
+  | release                   -- worker loop, after unlock_dependency(): children, then pre_decrement
+  | loadNum                   -- number_of_tasks.value()  (the loop condition)
 deriving DecidableEq, Repr
 
 /-- value returned to the caller (logged, compared with the implementation) -/
@@ -97,6 +113,9 @@ inductive Res where
   | popped (q : Nat) (t : Option Nat)
   | qsize (q n : Nat)
   | val (c : Nat) (v : Int)
+  | seeded (q t : Nat)
+  | released (p : Nat) (n : Int)
+  | num (v : Int)
   | skip
 deriving DecidableEq, Repr
 
@@ -104,6 +123,13 @@ deriving DecidableEq, Repr
 inductive Ctx where
   | alone
   | pop (q i : Nat)     -- inside the scan of get_task / try_get_task, candidate position `i-1`
+deriving DecidableEq, Repr
+
+/-- what `add_task` is part of -/
+inductive AddK where
+  | plain                              -- a bare TaskQueue::add_task
+  | seed                               -- initial loop of the hydro step: followed by ++number_of_tasks
+  | rel (p : Nat) (rem : List Nat)     -- release of a child of finished task `p`, `rem` = children left
 deriving DecidableEq, Repr
 
 inductive PC where
@@ -134,9 +160,15 @@ inductive PC where
   | tu1 (t : Nat)                          -- cas_unlock dependency 1
   | tu0 (t : Nat)                          -- cas_unlock dependency 0
   -- TaskQueue
-  | addLock (q t : Nat)                    -- cas_lock queue lock (spin)
-  | addBody (q t : Nat)                    -- plain, under the lock: store + ++size
-  | addUnlock (q t : Nat)                  -- cas_unlock queue lock
+  | addLock (q t : Nat) (k : AddK)         -- cas_lock queue lock (spin)
+  | addBody (q t : Nat) (k : AddK)         -- plain, under the lock: store + ++size
+  | addUnlock (q t : Nat) (k : AddK)       -- cas_unlock queue lock
+  -- hydro worker loop counter protocol
+  | numInc (q t : Nat) (k : AddK)          -- number_of_tasks.pre_increment() after add_task
+  | relDec (p c : Nat) (rem : List Nat)    -- tasks[c].decrement_number_of_unfinished_parents()
+  | retire (p : Nat)                       -- number_of_tasks.pre_decrement()
+  | setUnf (t : Nat) (v : Int)             -- store
+  | loadNum                                -- load
   | popLock (q : Nat) (blocking : Bool)    -- cas_lock queue lock (spin / one attempt)
   | popInit (q : Nat)                      -- plain, under the lock: index = size
   | popScan (q i : Nat)                    -- plain, under the lock: loop test, read _queue[i-1]
@@ -160,6 +192,8 @@ structure Thread where
   held : List Nat := []
   /-- tasks whose dependencies this thread holds (popped or lock_dependency succeeded) -/
   tasks : List Nat := []
+  /-- tasks whose `unlock_dependency` completed and whose children are not yet released -/
+  fin : List Nat := []
   /-- ghost: (queue, task) of every completed add_task body -/
   addLog : List (Nat × Nat) := []
   /-- ghost: (queue, task) of every task removed from a queue by this thread -/
@@ -184,6 +218,8 @@ structure Mem where
   locks : LockId → Bool := fun _ => false  -- ThreadLock::_lock
   items : Nat → List Nat := fun _ => []    -- TaskQueue::_queue[0 .. _current_queue_size)
   ctr : Nat → Int := fun _ => 0            -- free-standing AtomicValue counters
+  unf : Nat → Int := fun _ => 0            -- Task::_number_of_unfinished_parents
+  num : Int := 0                           -- number_of_tasks of the hydro worker loop
 
 structure State where
   mem : Mem := {}
@@ -196,7 +232,7 @@ def ret (th : Thread) (r : Res) : Thread := { th with pc := .idle, res := r :: t
 def pick (l : List Nat) (j : Nat) : Option Nat := l[j % l.length]?
 
 /-- first transition of a call: only locals change -/
-def dispatch (th : Thread) : Cmd → Thread
+def dispatch (cfg : Cfg) (th : Thread) : Cmd → Thread
   | .get => { th with pc := .getInc none }
   | .getSafe => { th with pc := .getCheck none }
   | .free j => match pick th.owned j with
@@ -217,7 +253,7 @@ def dispatch (th : Thread) : Cmd → Thread
   | .unlockTask j => match pick th.tasks j with
     | some t => { th with pc := .tuStart t, tasks := th.tasks.erase t }
     | none => ret th .skip
-  | .addTask q t => { th with pc := .addLock q t }
+  | .addTask q t => { th with pc := .addLock q t .plain }
   | .getTask q => { th with pc := .popLock q true }
   | .tryGetTask q => { th with pc := .popLock q false }
   | .qsize q => { th with pc := .qsz q }
@@ -229,6 +265,12 @@ def dispatch (th : Thread) : Cmd → Thread
   | .preSub c v => { th with pc := .cPreSub c v }
   | .load c => { th with pc := .cLoad c }
   | .lfAdd c v => { th with pc := .lfLoad c v }
+  | .setUnf t v => { th with pc := .setUnf t v }
+  | .seed q t => { th with pc := .addLock q t .seed }
+  | .release => match th.fin with
+    | p :: rest => { th with pc := (match cfg.children p with | [] => .retire p | c :: r => .relDec p c r), fin := rest }
+    | [] => ret th .skip
+  | .loadNum => { th with pc := .loadNum }
 
 /-- `lock_dependency` returned true -/
 def tlSucc (c : Ctx) (t : Nat) (th : Thread) : Thread :=
@@ -252,7 +294,7 @@ def exec (cfg : Cfg) (m : Mem) (th : Thread) : Mem × Thread :=
   match th.pc with
   | .idle => match th.prog with
     | [] => (m, th)
-    | c :: rest => (m, dispatch { th with prog := rest } c)
+    | c :: rest => (m, dispatch cfg { th with prog := rest } c)
   -- ---------------------------------------------------------------- slot pool
   | .getCheck r =>
     -- if (_number_taken.value() < _size) … else return _size;
@@ -336,26 +378,45 @@ def exec (cfg : Cfg) (m : Mem) (th : Thread) : Mem × Thread :=
     match cfg.deps t with
     | (some _, some _) => (m, { th with pc := .tu1 t })
     | (some _, none) => (m, { th with pc := .tu0 t })
-    | (none, _) => (m, ret th (.taskUnlocked t))
+    | (none, _) => (m, ret { th with fin := t :: th.fin } (.taskUnlocked t))
   | .tu1 t =>
     match cfg.deps t with
     | (some _, some b) => ({ m with locks := upd m.locks (.dep b) false }, { th with pc := .tu0 t })
     | (some _, none) => (m, { th with pc := .tu0 t })
-    | (none, _) => (m, ret th (.taskUnlocked t))
+    | (none, _) => (m, ret { th with fin := t :: th.fin } (.taskUnlocked t))
   | .tu0 t =>
     match cfg.deps t with
-    | (some a, _) => ({ m with locks := upd m.locks (.dep a) false }, ret th (.taskUnlocked t))
-    | (none, _) => (m, ret th (.taskUnlocked t))
+    | (some a, _) => ({ m with locks := upd m.locks (.dep a) false },
+                      ret { th with fin := t :: th.fin } (.taskUnlocked t))
+    | (none, _) => (m, ret { th with fin := t :: th.fin } (.taskUnlocked t))
   -- ---------------------------------------------------------------- TaskQueue
-  | .addLock q t =>
+  | .addLock q t k =>
     if m.locks (.queue q) then (m, th)
-    else ({ m with locks := upd m.locks (.queue q) true }, { th with pc := .addBody q t })
-  | .addBody q t =>
+    else ({ m with locks := upd m.locks (.queue q) true }, { th with pc := .addBody q t k })
+  | .addBody q t k =>
     -- _queue[_current_queue_size] = task; ++_current_queue_size;
     ({ m with items := upd m.items q (m.items q ++ [t]) },
-     { th with pc := .addUnlock q t, addLog := (q, t) :: th.addLog })
-  | .addUnlock q t =>
-    ({ m with locks := upd m.locks (.queue q) false }, ret th (.added q t))
+     { th with pc := .addUnlock q t k, addLog := (q, t) :: th.addLog })
+  | .addUnlock q t k =>
+    match k with
+    | .plain => ({ m with locks := upd m.locks (.queue q) false }, ret th (.added q t))
+    | _ => ({ m with locks := upd m.locks (.queue q) false }, { th with pc := .numInc q t k })
+  -- ---------------------------------------------------------------- hydro worker loop counters
+  | .numInc q t k =>
+    -- number_of_tasks.pre_increment();
+    match k with
+    | .rel p rem => ({ m with num := m.num + 1 }, { th with pc := (match rem with | [] => .retire p | c :: r => .relDec p c r) })
+    | _ => ({ m with num := m.num + 1 }, ret th (.seeded q t))
+  | .relDec p c rem =>
+    -- if (tasks[ichild].decrement_number_of_unfinished_parents() == 0) { add_task; ++number_of_tasks }
+    if m.unf c - 1 = 0 then
+      ({ m with unf := upd m.unf c (m.unf c - 1) }, { th with pc := .addLock (cfg.queueOf c) c (.rel p rem) })
+    else ({ m with unf := upd m.unf c (m.unf c - 1) }, { th with pc := (match rem with | [] => .retire p | c :: r => .relDec p c r) })
+  | .retire p =>
+    -- number_of_tasks.pre_decrement();
+    ({ m with num := m.num - 1 }, ret th (.released p (m.num - 1)))
+  | .setUnf t v => ({ m with unf := upd m.unf t v }, ret th .skip)
+  | .loadNum => (m, ret th (.num m.num))
   | .popLock q blocking =>
     if m.locks (.queue q) then
       (if blocking then (m, th) else (m, ret th (.popped q none)))
@@ -412,7 +473,7 @@ def init (progs : List (List Cmd)) : State :=
 def Thread.silent (th : Thread) : Bool :=
   match th.pc with
   | .idle => !th.prog.isEmpty
-  | .apFill _ _ | .apPlace _ _ | .freeReset _ | .tlStart _ _ | .tuStart _ | .addBody _ _ | .popInit _
+  | .apFill _ _ | .apPlace _ _ | .freeReset _ | .tlStart _ _ | .tuStart _ | .addBody _ _ _ | .popInit _
   | .popScan _ _ | .popRemove _ _ _ | .qsz _ => true
   | _ => false
 
